@@ -370,6 +370,23 @@ impl Node {
                     }
                 }
             }
+            Op::Nested { models } => {
+                // Synchronous use of a second, single-threaded simulation from within a handler.
+                let mut init = SimInit::with_num_threads(1);
+                let mut inner_addrs = Vec::new();
+                for k in 0..models.max(1) {
+                    let mb: Mailbox<InnerModel> = Mailbox::new();
+                    inner_addrs.push(mb.address());
+                    init = init.add_model(InnerModel, mb, format!("inner{}", k));
+                }
+                if let Ok((mut inner, _sched)) = init.init(MonotonicTime::EPOCH) {
+                    for a in &inner_addrs {
+                        let _ = inner.process_event(InnerModel::ping, 1u64, a);
+                    }
+                    drop(inner);
+                }
+                ctx.log(Ev::Note(format!("nested simulation with {} models built, run and dropped by node {}", models, self.idx)));
+            }
             Op::Connect { port, target, cid } if port >= 100 => {
                 let rp = (port - 100) as usize;
                 if rp < self.reqs.len() && (target as usize) < self.addrs.len() {
@@ -391,6 +408,13 @@ impl Node {
             }
         }
     }
+}
+
+/// Model of the nested simulations (`Op::Nested`).
+pub struct InnerModel;
+impl Model for InnerModel {}
+impl InnerModel {
+    pub async fn ping(&mut self, _x: u64) {}
 }
 
 pub fn mtt(t: (i64, u32)) -> MonotonicTime {
